@@ -95,6 +95,10 @@ fn choose_value(cur: u64, width: usize, choice: u8, r: u32, len_hint: u64) -> u6
     // wraps around the field's width: count * elem overflows to something small.
     const WRAP16: [u64; 6] = [0x5556, 0x5557, 0xAAAB, 0xAAAC, 0x0AAB, 0x0667];
     const WRAP32: [u64; 10] = [0x5555_5556, 0xAAAA_AAAB, 0x0AAA_AAAB, 0x0666_6667, 0x0400_0000, 0x0400_0001, 0x0CCC_CCCD, 0x8000_0001, 0x1000_0000, 0x0800_0000];
+    if (224..232).contains(&choice) && width >= 2 {
+        // reserved section indices of ELF and their neighbours (ordinary numbers here)
+        return [0xffffu64, 0xfff1, 0xfff2, 0xff00, 0xfffe, 0x1_0000, 0xff1f, 0xffff][(choice - 224) as usize] & mask;
+    }
     if choice >= 232 {
         let mask = if width >= 8 { u64::MAX } else { (1u64 << (8 * width)) - 1 };
         let v = if width <= 2 { WRAP16[(r as usize) % WRAP16.len()] } else { WRAP32[(r as usize) % WRAP32.len()] };
